@@ -1377,7 +1377,7 @@ def c14_cases(rng, tier):
     out = []
     n = 300 if tier == 'quick' else 20000
     for _ in range(n):
-        mag = rng.choice([10 ** 6, 10 ** 9, 10 ** 12, 10 ** 13])
+        mag = rng.choice([10 ** 6, 10 ** 9, 10 ** 12, 10 ** 13, 10 ** 13, 2 ** 54 + 1, 2 ** 60 + 12345])   # the last two: spans a float64 cannot hold (D19)
         a = rng.randint(-mag, mag)
         b = rng.randint(-mag, mag)
         if rng.random() < 0.3:
